@@ -1,82 +1,67 @@
 import MdsVerif.Model.Slice
+import MdsVerif.GenFact
 /-!
 # `Model.Slice` in its pinned form
 
 `Model.Slice` takes its guards, arithmetic and slicing shapes from `Gen.Slice`, which is regenerated
 from slice/slice.go on every run.  The lemmas below restate every function of the model with the
 expressions of the *pinned* source written out (`chunks_def`, `batchesLoop_succ`, …); the C17 proofs
-unfold the model only through them.  When a token of slice.go changes, `Gen/Slice.lean` changes and
-the lemma for the function concerned no longer compiles (and `Props.C17.C17_current` names the fact).
+unfold the model only through them.  When a token of slice.go changes a VALUE, `Gen/Slice.lean` changes and
+the lemma for the fact concerned no longer compiles (and `Props.C17.C17_current` names the fact); a neutral
+respelling regenerates a different `Gen/Slice.lean` for which every lemma still holds.
 Core Lean only.
 -/
 namespace MdsVerif.Model.Slice
 open MdsVerif
 
-/-! ## the regenerated facts in the form the proofs use -/
+/-! ## the regenerated facts in the form the proofs use
+
+Proved extensionally (`gen_fact`, `GenFact.lean`): a lemma says what the fact must be as a function of its
+arguments (lengths and indices are the natural numbers of the model), so `len(vs) == 0` and `len(vs) < 1`, or the
+two operand orders of `||`, both satisfy it; a changed value does not. -/
 section facts
 open Gen.Slice
-theorem partitionEmpty_iff (n : Nat) : partitionEmpty n = true ↔ n = 0 := by
-  unfold partitionEmpty; rw [decide_eq_true_iff]; omega
-theorem partitionJ_eq (i : Nat) : partitionJ i = i + 1 := rfl
-theorem partitionDone_iff (j n : Nat) : partitionDone j n = true ↔ j = n := by
-  unfold partitionDone; rw [decide_eq_true_iff]; omega
-theorem partitionClips_eq : partitionClips = true := rfl
-theorem sliceCheckNeg_iff (i : Int) : sliceCheckNeg i = true ↔ i < 0 := by
-  unfold sliceCheckNeg; rw [decide_eq_true_iff]
-theorem sliceCheckNorm_eq (i n : Int) : sliceCheckNorm i n = i + n := rfl
-theorem sliceCheckOk_eq (i n : Int) : sliceCheckOk i n = decide (i ≥ 0 ∧ i ≤ n) := by
-  unfold sliceCheckOk; rw [Bool.decide_and]
-theorem indexCheckNeg_iff (i : Int) : indexCheckNeg i = true ↔ i < 0 := by
-  unfold indexCheckNeg; rw [decide_eq_true_iff]
-theorem indexCheckNorm_eq (i n : Int) : indexCheckNorm i n = i + n := rfl
-theorem indexCheckOk_eq (i n : Int) : indexCheckOk i n = decide (i ≥ 0 ∧ i < n) := by
-  unfold indexCheckOk; rw [Bool.decide_and]
-theorem rotateNoop_iff (k n : Int) : rotateNoop k n = true ↔ (k = 0 ∨ k = n) := by
-  unfold rotateNoop; rw [Bool.or_eq_true, decide_eq_true_iff, decide_eq_true_iff]
-theorem rotateGcdFst_eq (k n : Nat) : rotateGcdFst k n = k := rfl
-theorem rotateGcdSnd_eq (k n : Nat) : rotateGcdSnd k n = n := rfl
-theorem rotateNext_eq (i k n : Nat) : rotateNext i k n = (i + k) % n := rfl
-theorem rotateCycleDone_iff (a j : Nat) : rotateCycleDone a j = true ↔ a = j := by
-  unfold rotateCycleDone; rw [decide_eq_true_iff]; omega
-theorem gcdContinues_iff (a b : Nat) : gcdContinues a b = true ↔ b ≠ 0 := by
-  unfold gcdContinues; rw [decide_eq_true_iff]; omega
-theorem gcdNextA_eq (a b : Nat) : gcdNextA a b = b := rfl
-theorem gcdNextB_eq (a b : Nat) : gcdNextB a b = a % b := rfl
-theorem chunksPanics_iff (n : Int) : chunksPanics n = true ↔ n < 0 := by
-  unfold chunksPanics; rw [decide_eq_true_iff]
-theorem chunksWhole_iff (n : Int) (len : Nat) : chunksWhole n len = true ↔ (n = 0 ∨ n ≥ len) := by
-  unfold chunksWhole; rw [Bool.or_eq_true, decide_eq_true_iff, decide_eq_true_iff]
-theorem chunksContinues_iff (i len : Nat) : chunksContinues i len = true ↔ i < len := by
-  unfold chunksContinues; rw [decide_eq_true_iff]; omega
-theorem chunksEnd_eq (i n len : Nat) : chunksEnd i n len = min (i + n) len := rfl
-theorem chunksClip_eq : chunksClip = true := rfl
-theorem batchesPanics_iff (n : Int) : batchesPanics n = true ↔ n < 0 := by
-  unfold batchesPanics; rw [decide_eq_true_iff]
-theorem batchesNil_iff (n : Int) : batchesNil n = true ↔ n = 0 := by
-  unfold batchesNil; rw [decide_eq_true_iff]
-theorem batchesCaps_iff (n : Int) (len : Nat) : batchesCaps n len = true ↔ n > len := by
-  unfold batchesCaps; rw [decide_eq_true_iff]
-theorem batchesCapped_eq (n len : Int) : batchesCapped n len = len := rfl
-theorem batchesGuardsEmpty_eq : batchesGuardsEmpty = true := rfl
-theorem batchesEmpty_iff (n : Int) : batchesEmpty n = true ↔ n = 0 := by
-  unfold batchesEmpty; rw [decide_eq_true_iff]
-theorem batchesSize_eq (len n : Nat) : batchesSize len n = len / n := rfl
-theorem batchesRem_eq (len n : Nat) : batchesRem len n = len % n := rfl
-theorem batchesContinues_iff (i len : Nat) : batchesContinues i len = true ↔ i < len := by
-  unfold batchesContinues; rw [decide_eq_true_iff]; omega
-theorem batchesEnd_eq (i size : Nat) : batchesEnd i size = i + size := rfl
-theorem batchesHasRem_iff (rem : Nat) : batchesHasRem rem = true ↔ rem > 0 := by
-  unfold batchesHasRem; rw [decide_eq_true_iff]; omega
-theorem batchesEndInc_eq (e : Nat) : batchesEndInc e = e + 1 := rfl
-theorem batchesRemDec_eq (rem : Nat) : batchesRemDec rem = rem - 1 := rfl
-theorem batchesClip_eq : batchesClip = true := rfl
-theorem headWhole_iff (len : Nat) (n : Int) : headWhole len n = true ↔ (len : Int) < n := by
-  unfold headWhole; rw [decide_eq_true_iff]
-theorem tailWhole_iff (len : Nat) (n : Int) : tailWhole len n = true ↔ (len : Int) < n := by
-  unfold tailWhole; rw [decide_eq_true_iff]
-theorem tailStart_eq (len n : Int) : tailStart len n = len - n := rfl
-theorem stripeHas_iff (i : Int) (len : Nat) : stripeHas i len = true ↔ i < len := by
-  unfold stripeHas; rw [decide_eq_true_iff]
+theorem partitionEmpty_iff (n : Nat) : partitionEmpty n = true ↔ n = 0 := by gen_fact partitionEmpty
+theorem partitionJ_eq (i : Nat) : partitionJ i = i + 1 := by gen_fact partitionJ
+theorem partitionDone_iff (j n : Nat) : partitionDone j n = true ↔ j = n := by gen_fact partitionDone
+theorem partitionClips_eq : partitionClips = true := by gen_fact partitionClips
+theorem sliceCheckNeg_iff (i : Int) : sliceCheckNeg i = true ↔ i < 0 := by gen_fact sliceCheckNeg
+theorem sliceCheckNorm_eq (i n : Int) : sliceCheckNorm i n = i + n := by gen_fact sliceCheckNorm
+theorem sliceCheckOk_eq (i n : Int) : sliceCheckOk i n = decide (i ≥ 0 ∧ i ≤ n) := by gen_fact sliceCheckOk
+theorem indexCheckNeg_iff (i : Int) : indexCheckNeg i = true ↔ i < 0 := by gen_fact indexCheckNeg
+theorem indexCheckNorm_eq (i n : Int) : indexCheckNorm i n = i + n := by gen_fact indexCheckNorm
+theorem indexCheckOk_eq (i n : Int) : indexCheckOk i n = decide (i ≥ 0 ∧ i < n) := by gen_fact indexCheckOk
+theorem rotateNoop_iff (k n : Int) : rotateNoop k n = true ↔ (k = 0 ∨ k = n) := by gen_fact rotateNoop
+theorem rotateGcdFst_eq (k n : Nat) : rotateGcdFst k n = k := by gen_fact rotateGcdFst
+theorem rotateGcdSnd_eq (k n : Nat) : rotateGcdSnd k n = n := by gen_fact rotateGcdSnd
+theorem rotateNext_eq (i k n : Nat) : rotateNext i k n = (i + k) % n := by gen_fact rotateNext
+theorem rotateCycleDone_iff (a j : Nat) : rotateCycleDone a j = true ↔ a = j := by gen_fact rotateCycleDone
+theorem gcdContinues_iff (a b : Nat) : gcdContinues a b = true ↔ b ≠ 0 := by gen_fact gcdContinues
+theorem gcdNextA_eq (a b : Nat) : gcdNextA a b = b := by gen_fact gcdNextA
+theorem gcdNextB_eq (a b : Nat) : gcdNextB a b = a % b := by gen_fact gcdNextB
+theorem chunksPanics_iff (n : Int) : chunksPanics n = true ↔ n < 0 := by gen_fact chunksPanics
+theorem chunksWhole_iff (n : Int) (len : Nat) : chunksWhole n len = true ↔ (n = 0 ∨ n ≥ len) := by gen_fact chunksWhole
+theorem chunksContinues_iff (i len : Nat) : chunksContinues i len = true ↔ i < len := by gen_fact chunksContinues
+theorem chunksEnd_eq (i n len : Nat) : chunksEnd i n len = min (i + n) len := by gen_fact chunksEnd
+theorem chunksClip_eq : chunksClip = true := by gen_fact chunksClip
+theorem batchesPanics_iff (n : Int) : batchesPanics n = true ↔ n < 0 := by gen_fact batchesPanics
+theorem batchesNil_iff (n : Int) : batchesNil n = true ↔ n = 0 := by gen_fact batchesNil
+theorem batchesCaps_iff (n : Int) (len : Nat) : batchesCaps n len = true ↔ n > len := by gen_fact batchesCaps
+theorem batchesCapped_eq (n len : Int) : batchesCapped n len = len := by gen_fact batchesCapped
+theorem batchesGuardsEmpty_eq : batchesGuardsEmpty = true := by gen_fact batchesGuardsEmpty
+theorem batchesEmpty_iff (n : Int) : batchesEmpty n = true ↔ n = 0 := by gen_fact batchesEmpty
+theorem batchesSize_eq (len n : Nat) : batchesSize len n = len / n := by gen_fact batchesSize
+theorem batchesRem_eq (len n : Nat) : batchesRem len n = len % n := by gen_fact batchesRem
+theorem batchesContinues_iff (i len : Nat) : batchesContinues i len = true ↔ i < len := by gen_fact batchesContinues
+theorem batchesEnd_eq (i size : Nat) : batchesEnd i size = i + size := by gen_fact batchesEnd
+theorem batchesHasRem_iff (rem : Nat) : batchesHasRem rem = true ↔ rem > 0 := by gen_fact batchesHasRem
+theorem batchesEndInc_eq (e : Nat) : batchesEndInc e = e + 1 := by gen_fact batchesEndInc
+theorem batchesRemDec_eq (rem : Nat) : batchesRemDec rem = rem - 1 := by gen_fact batchesRemDec
+theorem batchesClip_eq : batchesClip = true := by gen_fact batchesClip
+theorem headWhole_iff (len : Nat) (n : Int) : headWhole len n = true ↔ (len : Int) < n := by gen_fact headWhole
+theorem tailWhole_iff (len : Nat) (n : Int) : tailWhole len n = true ↔ (len : Int) < n := by gen_fact tailWhole
+theorem tailStart_eq (len n : Int) : tailStart len n = len - n := by gen_fact tailStart
+theorem stripeHas_iff (i : Int) (len : Nat) : stripeHas i len = true ↔ i < len := by gen_fact stripeHas
 end facts
 
 variable {α : Type} [Inhabited α]
